@@ -9,7 +9,8 @@ Line protocol of C11 (one line = one direction of one duplex session):
 
 * mode  `frag` (harness transport; everything is compared) or `pipe`
         (real `p2p.Pipe`; only schedule-independent fields are printed)
-* frag  `one` | `all` | `c<a>,<b>,…` (cycle) | `r<seed>.<max>` (hashed 1..max)
+* frag  `one` | `all` | `c<a>,<b>,…` (cycle) | `p<a>,<b>,…` (planned list, last size repeated) |
+        `r<seed>.<max>` (hashed 1..max)
 * kinds string over `bhwdslz` — the typed receives the peer performs (`-` none)
 * ops   `;`-separated sender operations (`-` none):
         `b<hex2>` `h<n>` `w<n>` `d<len>.<seed>` `s<len>.<seed>` `l<hex32>`
@@ -72,6 +73,13 @@ def parseFrag (s : String) : Option Frag :=
       | some (x :: xs) =>
         let arr := (x :: xs).toArray
         some fun i => arr[i % arr.size]!
+      | _ => none
+    | 'p' :: rest =>
+      -- planned schedule: the listed sizes, the last one repeated
+      match ((String.ofList rest).splitOn ",").mapM String.toNat? with
+      | some (x :: xs) =>
+        let arr := (x :: xs).toArray
+        some fun i => arr[min i (arr.size - 1)]!
       | _ => none
     | 'r' :: rest =>
       match (String.ofList rest).splitOn "." with
